@@ -198,3 +198,93 @@ Proof.
     exists e. split; [exact HI|].
     unfold has_id. rewrite EF. left. reflexivity.
 Qed.
+
+(* the stream order of the M commands (taken from the environment) does not change which are emitted *)
+Lemma take_path_In p l c rest :
+  take_path p l = Some (c, rest) -> forall x, In x l <-> x = c \/ In x rest.
+Proof.
+  revert c rest. induction l as [|y l IH]; simpl; intros c rest H x; [discriminate|].
+  destruct (bytes_eqb (cmd_path y) p).
+  - inversion H; subst. split; intros [A|A]; auto.
+  - destruct (take_path p l) as [[c' r']|] eqn:E; [|discriminate].
+    inversion H; subst. specialize (IH c r' eq_refl x). simpl. rewrite IH.
+    split; intros A.
+    + destruct A as [A|[A|A]]; auto.
+    + destruct A as [A|[A|A]]; auto.
+Qed.
+
+Lemma In_order_by mpaths : forall l x, In x (order_by mpaths l) <-> In x l.
+Proof.
+  induction mpaths as [|p ps IH]; simpl; intros l x; [tauto|].
+  destruct (take_path p l) as [[c rest]|] eqn:E.
+  - simpl. rewrite IH. rewrite (take_path_In p l c rest E x). split; intros [A|A]; auto.
+  - apply IH.
+Qed.
+
+Theorem filecmds_emit_changed_content (plain : bool) (old new : inv) (mpaths : list path) (e : entry) :
+  nodup_N (map e_id new) = true ->
+  In e new ->
+  kind_eqb (e_kind e) KDir = false ->
+  needs_M old e = true ->
+  (forall o, find_entry old (e_id e) = Some o -> renamed_b o e = true ->
+             is_empty_dir old (opath old (e_id o)) = false) ->
+  In (CM (opath new (e_id e)) (mode_of e) (e_data e)) (snd (filecmds plain old new mpaths)).
+Proof.
+  intros. unfold filecmds.
+  pose proof (exporter_emits_changed_content plain old new e H H0 H1 H2 H3) as HM.
+  destruct (mod_cmds plain old new) as [cmds mods]. simpl in *.
+  apply In_order_by. apply In_sort_by. exact HM.
+Qed.
+
+(* ------------------------------------------------------------------ *)
+(* tree level: the full statement is false (witnesses)                 *)
+(* ------------------------------------------------------------------ *)
+
+Definition bA : bytes := [97].   Definition bB : bytes := [98].   Definition bC : bytes := [99].
+Definition bD : bytes := [100].  Definition bE : bytes := [101].
+Definition tA : bytes := [65; 10]. Definition tB : bytes := [66; 10]. Definition tX : bytes := [88; 10].
+Definition F (i par : N) (nm data : bytes) : entry := mkE i par nm KFile data false.
+Definition Dr (i par : N) (nm : bytes) : entry := mkE i par nm KDir [] false.
+Definition L (i par : N) (nm data : bytes) : entry := mkE i par nm KLink data false.
+
+(* the round trip of one step on the imported image of the old tree *)
+Definition step_tree (plain : bool) (old new : inv) : res (list titem) :=
+  match image plain old with
+  | Ok (b, _) => roundtrip_tree plain b old new []
+  | Fail e => Fail e
+  end.
+
+Definition wit_swap     := ([F 1 0 bA tA; F 2 0 bB tB], [F 1 0 bB tA; F 2 0 bA tB]).
+Definition wit_clobber  := ([F 1 0 bA tA; F 2 0 bB tB], [F 1 0 bC tA; F 2 0 bA tB]).
+Definition wit_chain    := ([F 1 0 bA tA; F 2 0 bB tB], [F 1 0 bB tA; F 2 0 bC tB]).
+Definition wit_dirrename := ([Dr 1 0 bD; F 2 1 bA tA; F 3 1 bB tB], [Dr 1 0 bE; F 2 1 bA tX; F 3 1 bB tB]).
+Definition wit_link_to_dir2 := ([L 1 0 bA bB], [Dr 1 0 bA; F 2 1 bB tA; F 3 1 bC tB]).
+Definition wit_dir_to_file := ([Dr 1 0 bA; F 2 1 bB tA], [F 1 0 bA tB; F 2 0 bB tA]).
+Definition wit_link_to_emptydir := ([L 1 0 bA bB; F 2 0 bB tA], [Dr 1 0 bA; F 2 0 bB tA]).
+Definition wit_emptydir := ([Dr 1 0 bD; F 2 0 bA tA], [Dr 1 0 bD; F 2 0 bA tB]).
+
+(* a witness refutes the tree-level statement: both trees are well formed, the old tree is imported
+   faithfully (so the basis of the step shows exactly the old tree), and the step does not yield the new tree *)
+Definition refutes (plain : bool) (w : inv * inv) : Prop :=
+  wf_inv (fst w) = true /\ wf_inv (snd w) = true /\
+  (exists b fr, image plain (fst w) = Ok (b, fr) /\ tree_of b = tree_of (fst w)) /\
+  step_tree plain (fst w) (snd w) <> Ok (tree_of (snd w)).
+
+Ltac refute :=
+  unfold refutes; split; [vm_compute; reflexivity|];
+  split; [vm_compute; reflexivity|];
+  split;
+  [ match goal with |- exists b fr, ?i = _ /\ _ =>
+      let r := fresh "r" in let E := fresh "E" in
+      remember i as r eqn:E; vm_compute in E; rewrite E;
+      eexists; eexists; split; [reflexivity|vm_compute; reflexivity]
+    end
+  | let H := fresh "H" in vm_compute; intro H; discriminate H ].
+
+Lemma swap_refutes : refutes true wit_swap.            Proof. refute. Qed.
+Lemma clobber_refutes : refutes true wit_clobber.      Proof. refute. Qed.
+Lemma chain_refutes : refutes true wit_chain.          Proof. refute. Qed.
+Lemma dirrename_refutes : refutes true wit_dirrename.  Proof. refute. Qed.
+Lemma link_to_dir2_refutes : refutes true wit_link_to_dir2.  Proof. refute. Qed.
+Lemma dir_to_file_refutes : refutes true wit_dir_to_file.    Proof. refute. Qed.
+Lemma link_to_emptydir_refutes : refutes true wit_link_to_emptydir.  Proof. refute. Qed.
